@@ -14,10 +14,15 @@ MAX_BLOCKS = 400
 
 _PINNED = None
 _PINNED_TRAITS = None
+_PINNED_EDGES = None
+MAX_EDGE_BLOCKS = 150
+import re as _re_
+
+_CODEC_NAME = _re_.compile(r"(^|_)(to|from)_(be|le)_bytes$|^scalar_(to|from)_|^(to|from)_bytes$|^to_vec$")
 
 
 def _pinned():
-    global _PINNED, _PINNED_TRAITS
+    global _PINNED, _PINNED_TRAITS, _PINNED_EDGES
     if _PINNED is None:
         import json
         import os
@@ -28,9 +33,11 @@ def _pinned():
                 d = json.load(fh)
             _PINNED = set(d["fns"])
             _PINNED_TRAITS = set(d.get("traits", []))
+            _PINNED_EDGES = set(d.get("edges", []))
         except Exception:
             _PINNED = set()
             _PINNED_TRAITS = set()
+            _PINNED_EDGES = set()
     return _PINNED
 
 
@@ -90,6 +97,36 @@ def _target(t, helpers):
     return None
 
 
+def _new_edge_target(j, t, by_key):
+    """A call from one existing function to another existing function of the crate that the pinned tree does not make
+    ("reuse `is_valid()` instead of repeating its body"): the callee's key when it may be spliced, else None.
+    Only edges out of functions the pinned tree has are considered - what a new helper calls stays a call."""
+    pinned = _pinned()
+    if not _PINNED_EDGES or j["key"] not in pinned or j.get("from_expansion"):
+        return None
+    c = t.get("callee") or {}
+    keys = [k for k in (c.get("key"), (c.get("resolved") or {}).get("key")) if k]
+    if not keys or any(("%s -> %s" % (j["key"], k)) in _PINNED_EDGES for k in keys):
+        return None
+    for k in reversed(keys):
+        g = by_key.get(k)
+        if g is None or k not in pinned or k == j["key"]:
+            continue
+        if g.get("kind") not in ("Fn", "AssocFn") or g.get("from_expansion") or len(g["blocks"]) > MAX_EDGE_BLOCKS or _calls_self(g, k):
+            continue
+        if g.get("impl_trait") and g.get("impl_trait_crate") != "blsful":
+            # conversions (From / TryFrom / FromStr / Display / serde): the codec rules follow delegation between them
+            continue
+        if _CODEC_NAME.search(g.get("name") or ""):
+            # byte-order / scalar codec family: the codec rules follow delegation between siblings (with its reversals)
+            continue
+        if not any(b["term"]["k"] in ("call", "tailcall") for b in g["blocks"]):
+            # a leaf (accessor / variant mapper): rules read such calls as projections of the receiver already
+            continue
+        return k
+    return None
+
+
 def _calls_self(j, key):
     for b in j["blocks"]:
         t = b["term"]
@@ -98,21 +135,142 @@ def _calls_self(j, key):
     return False
 
 
+
+def _known_ctor(blocks, bi, local, preds):
+    """Constructor with which `local` is assigned on the way into block bi's end, walking back over straight-line
+    predecessors: ("Result","Ok") / ("Option","None") / ("bool", 0|1), else None."""
+    cur = bi
+    for _ in range(6):
+        for st in reversed(blocks[cur]["stmts"]):
+            if st["k"] == "assign" and st["place"].get("l") == local and "p" not in st["place"]:
+                rv = st["rv"]
+                agg = rv.get("agg")
+                if agg and agg.get("adt") in ("Result", "Option") and agg.get("variant"):
+                    return (agg["adt"], agg["variant"])
+                u = rv.get("use")
+                if isinstance(u, dict) and isinstance(u.get("const"), dict) and "bool" in u["const"]:
+                    return ("bool", 1 if u["const"]["bool"] else 0)
+                return None
+        ps = preds.get(cur, [])
+        if len(ps) != 1:
+            return None
+        pt = blocks[ps[0]]["term"]
+        if pt["k"] not in ("goto", "drop"):
+            return None
+        cur = ps[0]
+    return None
+
+
+def _split_returns(h):
+    """Helper JSON in which a bare `return` block shared by several `goto`s is duplicated into them: each way of
+    returning then ends in its own return block (so that what it returns can be told apart)."""
+    blocks = h["blocks"]
+    rets = [i for i, b in enumerate(blocks) if b["term"]["k"] == "return" and not any(s_["k"] == "assign" for s_ in b["stmts"])]
+    if not rets:
+        return h
+    nb = None
+    for i, b in enumerate(blocks):
+        t = b["term"]
+        if t["k"] == "goto" and t["target"] in rets and t["target"] != i:
+            if nb is None:
+                nb = [dict(x, stmts=list(x["stmts"])) for x in blocks]
+            r = blocks[t["target"]]
+            nb[i]["stmts"] = nb[i]["stmts"] + list(r["stmts"])
+            nb[i]["term"] = dict(r["term"])
+    if nb is None:
+        return h
+    return dict(h, blocks=nb)
+
+
+def _thread_returns(nj, ret_blocks, ret_local, dest, target):
+    """Jump threading after a splice.  The caller continues with `dest?` (Try::branch + switch on its discriminant) or
+    `if dest` (switch on the bool); a return point of the helper that assigns a known constructor (`Err(..)`, `Ok(..)`,
+    `true`) goes straight to the successor that constructor selects, through private copies of the two continuation
+    blocks.  Without this the helper's own branch (`if bad { return Err(..) }`) and the caller's `?` look like two
+    unrelated decisions and the guard no longer dominates what follows."""
+    if target is None or not ret_blocks:
+        return
+    blocks = nj["blocks"]
+    dl = dest.get("l") if isinstance(dest, dict) and "p" not in dest else None
+    if dl is None:
+        return
+    T0 = blocks[target]
+    t0 = T0["term"]
+    kind = None
+    if t0["k"] == "switch":
+        d = t0["discr"].get("move") or t0["discr"].get("copy")
+        if d and d.get("l") == dl and "p" not in d:
+            kind = "bool"
+    elif t0["k"] == "call" and (t0.get("callee") or {}).get("name") == "branch" and t0.get("target") is not None and t0.get("args"):
+        a0 = t0["args"][0]
+        pl = (a0.get("move") or a0.get("copy")) if isinstance(a0, dict) else None
+        if pl and pl.get("l") == dl and "p" not in pl and isinstance(t0.get("dest"), dict) and "p" not in t0["dest"]:
+            X = blocks[t0["target"]]
+            if X["term"]["k"] == "switch":
+                dk = X["term"]["discr"].get("move") or X["term"]["discr"].get("copy")
+                rl = t0["dest"]["l"]
+                if dk and any(st["k"] == "assign" and st["place"].get("l") == dk.get("l") and isinstance(st["rv"].get("discr"), dict) and st["rv"]["discr"].get("l") == rl for st in X["stmts"]):
+                    kind = "try"
+    if kind is None:
+        return
+    preds = {}
+    for i, b in enumerate(blocks):
+        t = b["term"]
+        succ = []
+        if t["k"] == "goto":
+            succ = [t["target"]]
+        elif t["k"] == "drop" and t.get("target") is not None:
+            succ = [t["target"]]
+        elif t["k"] == "switch":
+            succ = [a[1] for a in t["arms"]] + [t["otherwise"]]
+        elif t["k"] == "call" and t.get("target") is not None:
+            succ = [t["target"]]
+        for x in succ:
+            preds.setdefault(x, []).append(i)
+
+    def pick(sw, val):
+        for v, tg in sw["arms"]:
+            if v == val:
+                return tg
+        return sw["otherwise"]
+
+    for rb in ret_blocks:
+        ctor = _known_ctor(blocks, rb, ret_local, preds)
+        if ctor is None:
+            continue
+        if kind == "bool" and ctor[0] == "bool":
+            nb = dict(T0, stmts=list(T0["stmts"]), term={"k": "goto", "target": pick(t0, ctor[1]), "sp": t0.get("sp"), "threaded": True})
+            blocks.append(nb)
+            blocks[rb]["term"] = dict(blocks[rb]["term"], target=len(blocks) - 1)
+        elif kind == "try" and ctor[0] in ("Result", "Option"):
+            val = 0 if ctor[1] in ("Ok", "Some") else 1
+            X = blocks[t0["target"]]
+            xi = len(blocks)
+            blocks.append(dict(X, stmts=list(X["stmts"]), term={"k": "goto", "target": pick(X["term"], val), "sp": X["term"].get("sp"), "threaded": True}))
+            blocks.append(dict(T0, stmts=list(T0["stmts"]), term=dict(t0, target=xi)))
+            blocks[rb]["term"] = dict(blocks[rb]["term"], target=len(blocks) - 1)
+
+
 def inline_helpers(fns_json):
     """fns_json: list of function JSON objects.  Returns a list in which every caller of a private helper has the
     helper's body spliced in (helpers themselves stay in the list, also with their own helper calls inlined)."""
     by_key = {j["key"]: j for j in fns_json}
     helpers = {k: j for k, j in by_key.items() if is_private_helper(j) and len(j["blocks"]) <= MAX_BLOCKS and not _calls_self(j, k)}
-    if not helpers:
-        return fns_json, {}
+    _pinned()
     done = {}
+
+    def target(j, t):
+        hk = _target(t, helpers)
+        if hk is not None:
+            return hk
+        return _new_edge_target(j, t, by_key)
 
     def expand(j, depth, stack):
         key = j["key"]
         if depth == 0 and key in done:
             return done[key]
         blocks = j["blocks"]
-        sites = [i for i, b in enumerate(blocks) if b["term"]["k"] == "call" and _target(b["term"], helpers) is not None and _target(b["term"], helpers) not in stack]
+        sites = [i for i, b in enumerate(blocks) if b["term"]["k"] == "call" and target(j, b["term"]) is not None and target(j, b["term"]) not in stack]
         if not sites or depth >= MAX_DEPTH:
             return j
         nj = dict(j)
@@ -121,9 +279,10 @@ def inline_helpers(fns_json):
         nj["inlined"] = list(j.get("inlined", []))
         for i in sites:
             t = nj["blocks"][i]["term"]
-            hk = _target(t, helpers)
-            h = expand(helpers[hk], depth + 1, stack | {hk})
+            hk = target(j, t)
+            h = _split_returns(expand(by_key[hk], depth + 1, stack | {hk}))
             lo = len(nj["locals"])
+            rets = []
             bo = len(nj["blocks"])
             nj["locals"].extend(copy.deepcopy(h["locals"]))
             # the helper's promoted constants travel with its body
@@ -144,7 +303,9 @@ def inline_helpers(fns_json):
                         nb["term"] = {"k": "unreachable", "sp": sp}
                     else:
                         nb["term"] = {"k": "goto", "target": t["target"], "sp": sp}
+                        rets.append(len(nj["blocks"]))
                 nj["blocks"].append(nb)
+            _thread_returns(nj, rets, lo, t["dest"], t.get("target"))
             nj["inlined"].append(hk)
         if depth == 0:
             done[key] = nj
@@ -158,3 +319,44 @@ def inline_helpers(fns_json):
             report[j["key"]] = nj.get("inlined", [])
         out.append(nj)
     return out, report
+
+
+def splice_calls(j, by_key, want, depth=2, _stack=None):
+    """Copy of function JSON `j` in which every direct call to a function whose key is in `want` is replaced by that
+    function's body (recursively, up to `depth`).  Used for on-demand views ("look through the crate's own wrappers
+    until the call the rule is about becomes visible"); the program's function table is not changed."""
+    stack = _stack or frozenset([j["key"]])
+    blocks = j["blocks"]
+    sites = [i for i, b in enumerate(blocks) if b["term"]["k"] == "call" and _target(b["term"], want) is not None and _target(b["term"], want) not in stack]
+    if not sites or depth <= 0:
+        return j
+    nj = dict(j)
+    nj["locals"] = list(j["locals"])
+    nj["blocks"] = [dict(b, stmts=list(b["stmts"])) for b in blocks]
+    nj["inlined"] = list(j.get("inlined", []))
+    for i in sites:
+        t = nj["blocks"][i]["term"]
+        hk = _target(t, want)
+        h0 = by_key[hk]
+        if len(h0["blocks"]) > MAX_BLOCKS or _calls_self(h0, hk):
+            continue
+        h = splice_calls(h0, by_key, want, depth - 1, stack | {hk})
+        lo = len(nj["locals"])
+        bo = len(nj["blocks"])
+        nj["locals"].extend(copy.deepcopy(h["locals"]))
+        po = len(nj.get("promoted") or [])
+        if h.get("promoted"):
+            nj["promoted"] = list(nj.get("promoted") or []) + list(h["promoted"])
+        sp = t.get("sp")
+        for ai, a in enumerate(t["args"]):
+            if ai + 1 <= h["arg_count"]:
+                nj["blocks"][i]["stmts"].append({"k": "assign", "place": {"l": lo + ai + 1}, "rv": {"use": a}, "sp": sp})
+        nj["blocks"][i]["term"] = {"k": "goto", "target": bo, "sp": sp, "inlined_call": hk}
+        for hb in h["blocks"]:
+            nb = _remap(hb, lo, bo, po if h.get("promoted") else 0)
+            if nb["term"]["k"] == "return":
+                nb["stmts"] = list(nb["stmts"]) + [{"k": "assign", "place": t["dest"], "rv": {"use": {"move": {"l": lo}}}, "sp": sp}]
+                nb["term"] = {"k": "unreachable", "sp": sp} if t.get("target") is None else {"k": "goto", "target": t["target"], "sp": sp}
+            nj["blocks"].append(nb)
+        nj["inlined"].append(hk)
+    return nj
